@@ -115,3 +115,114 @@ def state_cases(seed, count, max_side, tag, extra="none"):
             steps += ex
             steps.append(dict(op="drop", g=k))
         yield flow_case("%s-%d-%d" % (tag, seed, i), g, steps)
+
+
+def history_cases(seed, count, max_side, tag, thr=None):
+    """C09: one object lives through a history that revisits earlier inputs after perturbations
+    (other fields, masks, base levels given in other insertion orders, parameter changes,
+    accumulate / basins calls); a fresh object then gets the same inputs.  The specification has
+    no hidden state, so TLC rejects any trace in which equal inputs give different observations."""
+    rng = random.Random(seed)
+    for i in range(count):
+        g = gen.rand_grid(rng, max_side=max_side, kinds=("raster", "raster", "raster", "profile", "mesh"))
+        n = gen.grid_size(g)
+        ops = copy.deepcopy(rng.choice(ALL_FINAL_SEQS))
+        if thr:
+            for o in ops:
+                if o["k"] == "single":
+                    o["thr"] = rng.choice(thr)
+        single = all(o["k"] != "multi" for o in ops)
+        midx = [j for j, o in enumerate(ops) if o["k"] == "multi"]
+        configs = []
+        for _ in range(rng.randint(2, 3)):
+            z = gen.rand_field(rng, g, rng.choice(["tied", "tied", "tied3", "flat", "bowl", "ulp", "sub"]))
+            mask, bl = gen.rand_mask_bl(rng, g, p_bl=0.25)
+            configs.append(dict(z=z, mask=mask, bl=bl, p=rng.choice([0, 4, 8])))
+        if rng.random() < 0.5:   # same field under different base levels / masks
+            configs[1]["z"] = configs[0]["z"]
+
+        def visit(gid, c, full):
+            st = [dict(op="mask", g=gid, m=c["mask"])]
+            bl = list(c["bl"])
+            rng.shuffle(bl)
+            st.append(dict(op="bl", g=gid, bl=bl))
+            if midx:
+                st.append(dict(op="param", g=gid, i=midx[-1], p=c["p"]))
+            st.append(dict(op="update", g=gid, z=c["z"]))
+            if full or rng.random() < 0.5:
+                st.append(dict(op="acc", g=gid, src=[1] * n))
+                if single:
+                    st.append(dict(op="basins", g=gid))
+            return st
+
+        steps = [dict(op="new", g=0, ops=copy.deepcopy(ops))]
+        order = [rng.randrange(len(configs)) for _ in range(rng.randint(3, 6))]
+        for ci in order:
+            steps += visit(0, configs[ci], False)
+            if rng.random() < 0.3:   # repeat the very same call
+                steps.append(dict(op="update", g=0, z=configs[ci]["z"]))
+        steps.append(dict(op="new", g=1, ops=copy.deepcopy(ops)))
+        for c in configs:
+            steps += visit(1, c, True)
+        for c in configs:
+            steps += visit(0, c, True)
+        steps += [dict(op="drop", g=0), dict(op="drop", g=1)]
+        yield flow_case("%s-%d-%d" % (tag, seed, i), g, steps)
+
+
+SNAP_SEQS = [
+    [gen.op_single(), gen.op_snap("a"), gen.op_mst("kruskal", "carve"), gen.op_snap("b", 1, 1)],
+    [gen.op_pflood(), gen.op_snap("e", 0, 1), gen.op_single(), gen.op_snap("c", 1, 1)],
+    [gen.op_multi(4), gen.op_snap("m", 1, 1)],
+    [gen.op_single(), gen.op_mst("boruvka", "basic"), gen.op_snap("s", 1, 0), gen.op_multi(8), gen.op_snap("t", 1, 1)],
+    [gen.op_single(), gen.op_snap("a", 1, 1), gen.op_pflood(), gen.op_snap("f", 0, 1), gen.op_multi(0)],
+    [gen.op_pflood(), gen.op_single(), gen.op_snap("a"), gen.op_mst("kruskal", "basic"), gen.op_snap("b", 1, 1), gen.op_multi(4)],
+    [gen.op_multi(4), gen.op_snap("m", 1, 0), gen.op_single(), gen.op_snap("n", 1, 1)],
+]
+
+
+def _prefix_ops(ops, i):
+    p = [o for o in ops[:i]]
+    if not any(o["k"] in ("single", "multi", "mst") for o in p):
+        p = p + [gen.op_single()]
+    return p
+
+
+def snapshot_cases(seed, count, max_side, tag):
+    """C16: every snapshot of a sequence is compared with a graph made of the operators before it."""
+    rng = random.Random(seed)
+    for i in range(count):
+        g, z, mask, bl = _world(rng, max_side)
+        n = gen.grid_size(g)
+        z2 = gen.rand_field(rng, g)
+        ops = copy.deepcopy(rng.choice(SNAP_SEQS))
+        snaps = [(j, o) for j, o in enumerate(ops) if o["k"] == "snap"]
+        steps = [dict(op="new", g=0, ops=ops)]
+        pre = {}
+        for k, (j, o) in enumerate(snaps, 1):
+            pre[o["name"]] = k
+            steps.append(dict(op="new", g=k, ops=[copy.deepcopy(x) for x in _prefix_ops(ops, j) if x["k"] != "snap"]))
+        gids = [0] + list(pre.values())
+        src = [rng.randint(0, 4) for _ in range(n)]
+        for zz in (z, z2, z):
+            for gid in gids:
+                steps.append(dict(op="mask", g=gid, m=mask))
+                steps.append(dict(op="bl", g=gid, bl=bl))
+            for gid in reversed(gids):            # prefix graphs first: their state must be in the history
+                steps.append(dict(op="update", g=gid, z=zz))
+            for j, o in snaps:
+                k = pre[o["name"]]
+                if o.get("sg", 1):
+                    psingle = all(x["k"] != "multi" for x in _prefix_ops(ops, j))
+                    steps.append(dict(op="snap", g=0, name=o["name"]))
+                    steps.append(dict(op="acc", g=k, src=src))
+                    steps.append(dict(op="acc", g=0, snap=o["name"], src=src))
+                    if psingle:
+                        steps.append(dict(op="basins", g=k))
+                        steps.append(dict(op="basins", g=0, snap=o["name"]))
+                    steps.append(dict(op="snapmut", g=0, name=o["name"], call=rng.choice(["update", "mask", "bl"])))
+                if o.get("se", 0):
+                    steps.append(dict(op="esnap", g=0, name=o["name"]))
+            mask, bl = gen.rand_mask_bl(rng, g) if rng.random() < 0.5 else (mask, bl)
+        steps += [dict(op="drop", g=gid) for gid in gids]
+        yield flow_case("%s-%d-%d" % (tag, seed, i), g, steps)
